@@ -36,6 +36,10 @@ CLAIMS = {
         text="BFS over batch histories (single events and ordered pairs as batches, depth 2 quick / 3 thorough) on fresh in-memory SQLite databases keyed on a dump of all five tables; after every batch 353 filter lists are queried and compared with the specification over stored live events (all seven fields, tie-tolerant limit-newest union).",
         note="Hash seed fixed (12345) with a no-collision check of the alphabet; addressable events without d, deleted deletion requests, a references to plain replaceable kinds unclaimed.",
         technique="explicit-state model checking of the implementation: BFS over batch histories on fresh real databases, full table dump as state key", design="DESIGN.md §4 C06"),
+    "C07": dict(engine="vsched", category="model_checking",
+        text="All schedules of one real RouterHandler with 2-3 client connections in 10 scenarios (matching/non-matching publication, replacement, CLOSE, same id on two connections, two publishers, disconnect by cancel or inbound close at every cut point, stalled subscriber with buflen+2 publications, self-delivery) x buflen 1,2, map iteration order in Publish explored as a choice; unbounded within a per-job budget, else complete up to a delay bound; three-valued oracle on call/return stamps (EOSE received before the EVENT was sent => must deliver once; REQ after the OK, closed/replaced/finished before => must not; otherwise may), per-publisher order, every REQ an EOSE, every EVENT an accepting OK, publishers never blocked by a stalled subscriber.",
+        note="A delivery may be missing only if >= buflen other deliveries to that connection were unread; connections ended by the environment may lose queued deliveries (unclaimed).",
+        technique=E1_TECH, design="DESIGN.md §4 C07"),
     "C08": dict(engine="vsched", category="model_checking",
         text="All schedules of one real MergeHandler session over scripted REQ children (7 behaviours: stored+EOSE, EOSE+live, unsorted, non-matching, duplicate-of-sibling, EOSE-only, late-EOSE) for every pair of behaviours x 4 client scripts x filter sets; unbounded (complete up to state caching) within a per-job budget, otherwise complete up to a delay bound; oracle on the client stream: one EOSE after all children, ordered de-duplicated matching limited stream before, live events forwarded unchanged in child order after.",
         note="Events a child sends between its own EOSE and the merged EOSE are unclaimed; histories do not re-issue an id before its EOSE (the property's quantifier).",
@@ -48,6 +52,18 @@ CLAIMS = {
         text="Every frame sequence up to length 2 (quick) / 3 (thorough) over 20 frame classes x 3 handler scripts through the real Relay.ServeHTTP + coder/websocket on net.Pipe inside a synctest bubble (exact quiescence after every frame): the handler gets exactly the valid authentic frames in order, every other frame gets exactly one rejection, the connection stays usable; every handler-output sequence up to length 3/4 over 10 server messages arrives as equal text frames in order.",
         note="Enumerates frames/outputs/configurations, not interleavings inside net/http and coder/websocket; net.Pipe instead of TCP. Frames above the size limit (library closes) are unclaimed.",
         technique="bounded exhaustive enumeration of frame and output sequences on the real WebSocket stack under virtual time with exact quiescence detection", design="DESIGN.md §4 C12"),
+    "C13": dict(engine="vsched", category="model_checking",
+        text="Handlers (E1): 8 real compositions (Default, Cache, Router, merges, SQLite in memory, the composition of cmd/mocrelay) x 6 wrappers plus every provided middleware singly, serving [REQ, EVENT, COUNT, CLOSE, REQ] while a second connection publishes; the session is ended by an environment task enabled from the start (every cut point) - cancel with draining or stalled peer, or inbound close; all schedules up to a delay bound per job; at quiescence ServeNostr has returned, no task spawned under the session is alive, router registry and Prometheus gauges are back. WebSocket (E3): SendTimeout x PingDuration (incl. disabled) x handler x stall point in virtual time: the stalled peer is dropped by T0+SendTimeout(+allowance), ServeHTTP returns, no goroutine left; every cut point of a 4-frame history for client close / connection cut.",
+        note="Goroutines inside database/sql, go-sqlite3, net/http and coder/websocket are not scheduled by E1; E3 enumerates configurations and cut points, not interleavings of the network stack.",
+        technique=E1_TECH + "; plus exhaustive enumeration of configurations and cut points on the real WebSocket stack under virtual time", design="DESIGN.md §4 C13"),
+    "C15": dict(engine="vsched", category="model_checking",
+        text="2-3 tasks x 1-2 operations on one shared EventCache (and two CacheHandler sessions on one cache): all schedules at lock granularity, and - with a scheduling point before every statement of event_cache.go and data_structure.go - all schedules up to a preemption bound, so that a changed lock scope becomes an observable atomicity violation; oracle: brute-force linearizability against the cache run sequentially plus per-result invariants. The 'no data races' clause is checked by a separate free-running -race pass of the same harness bodies (sampling, stated as such).",
+        note="Sequentially consistent interleavings only; the race pass samples. exhaustive=false in the evidence because of the sampled part.",
+        technique=E1_TECH + " with statement-level scheduling points; brute-force linearizability checking; free-running -race pass as complement", design="DESIGN.md §4 C15"),
+    "C16": dict(engine="vsched", category="model_checking",
+        text="Every client message sequence up to length 3/4 over 12 messages through the real CacheHandler (canonical schedule, all schedules for length 2 and a core at length 3) and up to length 2/3 through the real SQLite handler (stepwise with quiescence, pipelined with a delay bound): the reply stream is the in-order concatenation of per-request replies. Dump/restore: in every state of the C03 exploration a dumped and restored cache answers the whole filter battery identically.",
+        note="Cache: 'newly stored' and stored matches are taken from the cache run sequentially (decided against the spec by C03-C05).",
+        technique=E1_TECH + "; explicit-state BFS for dump/restore", design="DESIGN.md §4 C16"),
     "C14": dict(engine="faultsql", category="fault_enumeration",
         text="For 14 batches x 3 pre-states every driver call (begin, each prepare, each exec, commit) is failed in modes error and connection-drop (thorough: process kill in a child process, and second faults during the retry): answers after the failure equal answers before; retry and re-insertion equal one successful insertion. Close/reopen at every subset of batch boundaries of all histories of <= 3 batches over an 8-batch alphabet: answers equal the never-reopened run, seed stable.",
         note="Crash points are driver-call boundaries; torn pages inside SQLite's pager are trusted to SQLite. The handler's retry loop is not covered.",
